@@ -421,6 +421,8 @@ pub const ATOMS: &[&str] = &[
     "\u{1F468}\u{200D}\u{1F469}\u{200D}\u{1F467}", "\u{1F1E6}\u{1F1F9}", "\u{2744}\u{FE0F}", "\0", "\x01", ".", ",",
     "-y", "+z", " x", "@@ -1 +1 @@", "\\ No newline at end of file", "\u{f6}", "\u{65e5}\u{672c}", "1", "22",
     "--- a", "+++ b", "\\", "\u{feff}", "\u{fffd}", "\u{1F600}", "\u{10348}",
+    // code points at the edges of the UTF-8 length classes and of the combining / Greek blocks
+    "\u{7f}", "\u{80}", "\u{bf}", "\u{36f}", "\u{370}", "\u{37e}", "\u{7ff}", "\u{800}", "\u{ffff}", "\u{10000}", "\u{10ffff}",
 ];
 
 pub const BAD: &[&[u8]] = &[
